@@ -5,21 +5,24 @@
     * `kmipserver/router.go`  `executeItemWithMiddleware`, `biNextFrom`          (kind `srvitem`)
 
   The three Go chains are the same code up to the types, so ONE generic definition (`nextFrom`) is
-  instantiated three times; the kinds differ only in what surrounds the chain: how an outcome of the
-  innermost handler reaches the last stage (`coreResult`), what the entry point does with the pair
-  returned by the outermost stage (`finish`), which request header the handler's context reports
-  (`hdrOf`), and — for the pre-fix code only — which message is forwarded (`runOld`).
+  instantiated three times; the kinds differ only in what surrounds the chain: what the innermost
+  continuation does with the message it is given (`coreRun`: the scripted transport for the client;
+  for the server the library's own `executeItem`, which looks the operation handler up FROM THE ITEM
+  IT IS GIVEN and echoes that item's operation), what the entry point does with the pair returned by
+  the outermost stage (`finish`), which request header the handler's context reports (`hdrOf`), and —
+  for the pre-fix code only — which message is forwarded (`runOld`).
 
   Everything a user can plug in is *data*:
     * a middleware (stage) is a program: a list of `Act`ions run by `runActs` against the
       continuation `next` it is given. The alphabet expresses pass-through, short-circuit with a fixed
       response / with an error / with `(nil, nil)`, calling `next` twice or n times, retry while the
-      result is a failure, replacing the message, replacing the context value, ignoring the inner
-      result, `return nil, err`, swallowing an error;
-    * messages and contexts are abstract tokens (`Nat`); a stage transforms them (`Tr`), so what each
-      stage RECEIVES is observable in the trace;
-    * the innermost transport / handler is a script (`Core`): its outcome depends on how many times
-      it has been invoked and on the message it receives.
+      result is a failure, replacing the message, CHANGING THE OPERATION of the message, replacing
+      the context value, ignoring the inner result, `return nil, err`, swallowing an error;
+    * a message is an abstract token plus the operation it requests (`Msg`); a context is a token; a
+      stage transforms them (`Tr`, `setOp`), so what each stage RECEIVES is observable in the trace;
+    * the operation handlers are scripts (`Core`): the outcome depends on how many times a handler
+      has been invoked and on the message it receives. On the server, operations 1 and 2 are routed
+      to two DISTINCT handlers (handler 1, handler 2), every other operation has no handler.
 
   A Go continuation returns a pair `(resp, err)` in which either component may be nil: `R`.
   No statement of the three chains can panic (indexing is guarded by `i < len(...)`; the nil
@@ -29,9 +32,22 @@ namespace Kmip.Mw
 
 /-! ### values -/
 
+/-- a request (message of the client / server message chain, batch item of the item chain):
+    a token and the operation it requests (1, 2: routed on the server; 3: not routed). -/
+structure Msg where
+  tok : Nat
+  op  : Nat
+  deriving Repr, DecidableEq, Inhabited
+
+/-- a response (message / batch item): a token and the operation it echoes (0 = none). -/
+structure Resp where
+  tok : Nat
+  op  : Nat
+  deriving Repr, DecidableEq, Inhabited
+
 /-- `(resp, err)` as returned by a continuation / middleware: each component may be `nil`. -/
 structure R where
-  resp : Option Nat
+  resp : Option Resp
   err  : Option Nat
   deriving Repr, DecidableEq, Inhabited
 
@@ -42,14 +58,15 @@ def R.nil : R := ⟨none, none⟩
     (token `failBase + e` carries the error code `e` in its `ResultMessage`). -/
 def failBase : Nat := 1000
 
-/-- error code of an error created by the library itself (e.g. "No response for batch item"). -/
+/-- error code of an error created by the library itself ("No response for batch item",
+    "Operation not supported"). -/
 def libErr : Nat := 999
 
 /-- what a retrying stage looks at: a non-nil error, or a response reporting a failed operation. -/
 def R.isFail (r : R) : Bool :=
-  r.err.isSome || (match r.resp with | some t => decide (failBase ≤ t) | none => false)
+  r.err.isSome || (match r.resp with | some t => decide (failBase ≤ t.tok) | none => false)
 
-/-- how a stage derives the message / context it passes on from the one it holds. -/
+/-- how a stage derives the token it passes on from the one it holds. -/
 inductive Tr where
   | tag (k : Nat)      -- x ↦ 10·x + k   (the received value stays visible)
   | const (v : Nat)    -- x ↦ v          (a brand new message / context)
@@ -76,7 +93,8 @@ def Ret.eval : Ret → R → R
 /-- one statement of a stage program. The local variables of a stage are the message and context it
     currently holds (initially those it received) and the result of its latest call of `next`. -/
 inductive Act where
-  | setMsg (t : Tr)        -- msg = t(msg)
+  | setMsg (t : Tr)        -- msg = a new message with token t(token), same operation
+  | setOp (o : Nat)        -- msg = a new message with the same token requesting operation o
   | setCtx (t : Tr)        -- ctx = context.WithValue(ctx, key, t(value))
   | call                   -- resp, err = next(ctx, msg)
   | callIfFail             -- if failed(resp, err) { resp, err = next(ctx, msg) }      (one retry step)
@@ -92,23 +110,25 @@ structure Stage where
   body : List Act
   deriving Repr, DecidableEq, Inhabited
 
-/-- outcome of the scripted innermost handler. -/
+/-- outcome of a scripted handler. -/
 inductive Out where
   | ok (v : Nat)
   | err (e : Nat)
   deriving Repr, DecidableEq, Inhabited
 
 inductive Event where
-  | enter (id m c : Nat)             -- stage `id` starts, having received message `m`, context `c`
-  | call  (id m c : Nat)             -- stage `id` invokes its continuation with `m`, `c`
-  | back  (id : Nat) (r : R)         -- that invocation returned `r` to stage `id`
-  | exit  (id : Nat) (r : R)         -- stage `id` returns `r`
-  | core  (n m c h : Nat) (o : Out)  -- `n`-th invocation of the innermost handler with `m`, `c`;
-                                     -- its context reports request header `h`; it answers `o`
+  | enter (id : Nat) (m : Msg) (c : Nat)   -- stage `id` starts, having received `m` and context `c`
+  | call  (id : Nat) (m : Msg) (c : Nat)   -- stage `id` invokes its continuation with `m`, `c`
+  | back  (id : Nat) (r : R)               -- that invocation returned `r` to stage `id`
+  | exit  (id : Nat) (r : R)               -- stage `id` returns `r`
+  | core  (n hd : Nat) (m : Msg) (c h : Nat) (o : Out)
+      -- `n`-th handler invocation: handler `hd` (0: the client's transport) ran with message `m`
+      -- (token and payload type read from the payload it was given) and context `c`; its context
+      -- reports request header `h`; it answers `o`
   deriving Repr, DecidableEq, Inhabited
 
-/-- the state threaded through a run: the trace so far, the number of invocations of the innermost
-    handler so far, and — used by the PRE-FIX chain `oldNext` only — the shared cursor. -/
+/-- the state threaded through a run: the trace so far, the number of handler invocations so far,
+    and — used by the PRE-FIX chain `oldNext` only — the shared cursor. -/
 structure St where
   trace : List Event
   calls : Nat
@@ -120,20 +140,21 @@ def St.log (s : St) (e : Event) : St := { s with trace := s.trace ++ [e] }
 def St.init : St := ⟨[], 0, 0⟩
 
 /-- a Go continuation `func(ctx, msg) (resp, err)`, with the state made explicit. -/
-abbrev Next := Nat → Nat → St → R × St
+abbrev Next := Msg → Nat → St → R × St
 
 /-! ### running a stage program -/
 
 /-- `resp, err = next(ctx, msg)` performed by stage `id`. -/
-def doCall (next : Next) (id m c : Nat) (s : St) : R × St :=
+def doCall (next : Next) (id : Nat) (m : Msg) (c : Nat) (s : St) : R × St :=
   let x := next m c (s.log (.call id m c))
   (x.1, x.2.log (.back id x.1))
 
 /-- the interpreter of stage programs: `m`, `c` are the message / context currently held, `last` the
     latest result of `next`. -/
-def runActs (next : Next) (id : Nat) : List Act → Nat → Nat → R → St → R × St
+def runActs (next : Next) (id : Nat) : List Act → Msg → Nat → R → St → R × St
   | [], _, _, last, s => (last, s)
-  | .setMsg t :: as, m, c, last, s => runActs next id as (t.app m) c last s
+  | .setMsg t :: as, m, c, last, s => runActs next id as { m with tok := t.app m.tok } c last s
+  | .setOp o :: as, m, c, last, s => runActs next id as { m with op := o } c last s
   | .setCtx t :: as, m, c, last, s => runActs next id as m (t.app c) last s
   | .call :: as, m, c, _, s =>
     let x := doCall next id m c s
@@ -154,9 +175,9 @@ def runStage (next : Next) (st : Stage) : Next := fun m c s =>
   let x := runActs next st.id st.body m c R.nil (s.log (.enter st.id m c))
   (x.1, x.2.log (.exit st.id x.1))
 
-/-! ### the innermost handler -/
+/-! ### the innermost continuation -/
 
-/-- `rej`: messages the handler refuses whatever the call count (error code 9). -/
+/-- `rej`: message tokens the handlers refuse whatever the call count (error code 9). -/
 structure Core where
   script : List Out
   dflt   : Out
@@ -167,25 +188,46 @@ inductive Kind where
   | client | srvmsg | srvitem
   deriving Repr, DecidableEq, Inhabited
 
-/-- how an outcome of the scripted handler reaches the last stage of the chain.
+/-- `exec.routes[bi.Operation]`: on the server operations 1 and 2 have a handler; the client's
+    transport takes every message. -/
+def routed : Kind → Nat → Bool
+  | .client, _ => true
+  | _, op => op == 1 || op == 2
+
+/-- the handler registered for an operation: handler `op` for operation `op` (0: the transport). -/
+def handlerOf : Kind → Nat → Nat
+  | .client, _ => 0
+  | _, op => op
+
+/-- how an outcome of the handler that ran on a message requesting `op` reaches the last stage.
     * `client`:  the scripted transport returns `(resp, nil)` or `(nil, err)`;
-    * `srvmsg`:  the core is `handleRequest`: an operation handler error becomes a failed batch item
-      of a response returned with a nil error;
+    * `srvmsg`:  the core is `handleRequest`: a handler error becomes a failed batch item of a
+      response returned with a nil error;
     * `srvitem`: the core is `executeItem`: it always returns a non-nil item (token 0 = no payload)
-      together with the handler's error. -/
-def coreResult : Kind → Out → R
-  | _, .ok v => ⟨some v, none⟩
-  | .client, .err e => ⟨none, some e⟩
-  | .srvmsg, .err e => ⟨some (failBase + e), none⟩
-  | .srvitem, .err e => ⟨some 0, some e⟩
+      together with the handler's error.
+    The response echoes the operation of the message the core was given. -/
+def coreResult : Kind → Out → Nat → R
+  | _, .ok v, op => ⟨some ⟨v, op⟩, none⟩
+  | .client, .err e, _ => ⟨none, some e⟩
+  | .srvmsg, .err e, op => ⟨some ⟨failBase + e, op⟩, none⟩
+  | .srvitem, .err e, op => ⟨some ⟨0, op⟩, some e⟩
 
-def Core.outcome (core : Core) (n m : Nat) : Out :=
-  if core.rej.contains m then .err 9 else core.script.getD n core.dflt
+/-- the core on a message whose operation has no handler: `ErrOperationNotSupported`. -/
+def notRouted (k : Kind) (op : Nat) : R := coreResult k (.err libErr) op
 
-/-- the innermost handler as a continuation; `h`: the request header its context reports. -/
+def Core.outcome (core : Core) (n tok : Nat) : Out :=
+  if core.rej.contains tok then .err 9 else core.script.getD n core.dflt
+
+/-- the innermost continuation (`doRountrip` / `handleRequest` / `executeItem`): look the handler up
+    from the operation of the message IT IS GIVEN, run it on that message; `h`: the request header
+    the handler's context reports. -/
 def coreRun (k : Kind) (core : Core) (h : Nat) : Next := fun m c s =>
-  let o := core.outcome s.calls m
-  (coreResult k o, { s with calls := s.calls + 1, trace := s.trace ++ [.core s.calls m c h o] })
+  if routed k m.op then
+    let o := core.outcome s.calls m.tok
+    (coreResult k o m.op,
+      { s with calls := s.calls + 1,
+               trace := s.trace ++ [.core s.calls (handlerOf k m.op) m c h o] })
+  else (notRouted k m.op, s)
 
 /-! ### the three ways of running a chain -/
 
@@ -218,12 +260,13 @@ termination_by chain.length - i
     }
     ```
     The cursor lives in the state (`St.cur`). `orig = some m0` models the server message chain, which
-    forwarded the ORIGINAL request instead of the one given to `next`. (Checked against the real
-    pre-fix code, worktree at 96d5b20, through driver command `mw.old`: identical answers on every
-    generated server message / item chain, except item chains whose outermost stage returns a nil
-    item with an error — those dereferenced nil before 851aad4, which is not modelled here.) The fuel bounds the nesting
-    depth: every nested entry increments the cursor, so `chain.length + 1` is never exhausted. -/
-def oldNext (chain : List Stage) (core : Next) (orig : Option Nat) : Nat → Next
+    forwarded the ORIGINAL request instead of the one given to `next`. The fuel bounds the nesting
+    depth: every nested entry increments the cursor, so `chain.length + 1` is never exhausted.
+    (Checked against the real pre-fix code, worktree at 96d5b20, through driver command `mw.old`:
+    identical answers on every generated server message / item chain, except item chains whose
+    outermost stage returns a nil item with an error — those dereferenced nil before 851aad4, which
+    is not modelled here.) -/
+def oldNext (chain : List Stage) (core : Next) (orig : Option Msg) : Nat → Next
   | 0 => fun _ _ s => (⟨none, some 9999⟩, s)
   | fuel + 1 => fun m c s =>
     let fm := orig.getD m
@@ -233,73 +276,88 @@ def oldNext (chain : List Stage) (core : Next) (orig : Option Nat) : Nat → Nex
 
 /-- the request header reported by the handler's context: the server stores the header of the
     request given to `HandleRequest` in the context before the chain runs (`newBatchContext`). -/
-def hdrOf : Kind → Nat → Nat
+def hdrOf : Kind → Msg → Nat
   | .client, _ => 0
-  | _, m0 => m0
+  | _, m0 => m0.tok
 
-/-- what the entry point does with the pair returned by the outermost stage.
+/-- what the entry point does with the pair returned by the outermost stage (`op0`: the operation
+    of the request the entry point was given).
     * `Client.Roundtrip` returns it;
     * `HandleRequest`: `if err != nil { return handleMessageError(…) }; return resp` (possibly nil);
-    * `executeItemWithMiddleware`: a nil item is replaced by an empty one (with the library's own
-      error if there was none), then a non-nil error turns the item into a failed one. -/
-def finish : Kind → R → R
-  | .client, r => r
-  | .srvmsg, r =>
+      the error response carries an item without operation;
+    * `executeItemWithMiddleware`: a nil item is replaced by an empty one echoing the operation of
+      the ORIGINAL item (with the library's own error if there was none), then a non-nil error turns
+      the item into a failed one. -/
+def finish : Kind → Nat → R → R
+  | .client, _, r => r
+  | .srvmsg, _, r =>
     match r.err with
-    | some e => ⟨some (failBase + e), none⟩
+    | some e => ⟨some ⟨failBase + e, 0⟩, none⟩
     | none => ⟨r.resp, none⟩
-  | .srvitem, r =>
+  | .srvitem, op0, r =>
     match r.resp, r.err with
-    | none, none => ⟨some (failBase + libErr), none⟩
-    | _, some e => ⟨some (failBase + e), none⟩
+    | none, none => ⟨some ⟨failBase + libErr, op0⟩, none⟩
+    | none, some e => ⟨some ⟨failBase + e, op0⟩, none⟩
+    | some t, some e => ⟨some ⟨failBase + e, t.op⟩, none⟩
     | some t, none => ⟨some t, none⟩
 
 /-- result of a run: what the entry point returns, and the trace. -/
 abbrev Run := R × List Event
 
-def mkRun (k : Kind) (x : R × St) : Run := (finish k x.1, x.2.trace)
+def mkRun (k : Kind) (op0 : Nat) (x : R × St) : Run := (finish k op0 x.1, x.2.trace)
 
-def runSpec (k : Kind) (chain : List Stage) (core : Core) (m0 c0 : Nat) : Run :=
-  mkRun k (specNext (coreRun k core (hdrOf k m0)) chain m0 c0 St.init)
+def runSpec (k : Kind) (chain : List Stage) (core : Core) (m0 : Msg) (c0 : Nat) : Run :=
+  mkRun k m0.op (specNext (coreRun k core (hdrOf k m0)) chain m0 c0 St.init)
 
-def runImpl (k : Kind) (chain : List Stage) (core : Core) (m0 c0 : Nat) : Run :=
-  mkRun k (nextFrom chain (coreRun k core (hdrOf k m0)) 0 m0 c0 St.init)
+def runImpl (k : Kind) (chain : List Stage) (core : Core) (m0 : Msg) (c0 : Nat) : Run :=
+  mkRun k m0.op (nextFrom chain (coreRun k core (hdrOf k m0)) 0 m0 c0 St.init)
 
-def runOld (k : Kind) (chain : List Stage) (core : Core) (m0 c0 : Nat) : Run :=
-  mkRun k (oldNext chain (coreRun k core (hdrOf k m0)) (if k = .srvmsg then some m0 else none)
+def runOld (k : Kind) (chain : List Stage) (core : Core) (m0 : Msg) (c0 : Nat) : Run :=
+  mkRun k m0.op (oldNext chain (coreRun k core (hdrOf k m0)) (if k = .srvmsg then some m0 else none)
     (chain.length + 1) m0 c0 St.init)
 
 /-! ### specification vocabulary for the corollaries -/
 
 /-- the events of the successive calls of `next` by stage `id`: each call is the segment
     `call id m' c'`, the inner trace, `back id r'`. -/
-def segsOf (id : Nat) : List (Nat × Nat × R × List Event) → List Event
+def segsOf (id : Nat) : List (Msg × Nat × R × List Event) → List Event
   | [] => []
   | p :: ps => .call id p.1 p.2.1 :: p.2.2.2 ++ .back id p.2.2.1 :: segsOf id ps
 
-/-- `WN cr ids m c r tr`: `tr` is the trace of ONE complete, well-nested execution of the stages
+/-- `WN cs ids m c r tr`: `tr` is the trace of ONE complete, well-nested execution of the stages
     `ids` (in this order) followed by the core, which received `(m, c)` and returned `r`:
     the first stage enters with `(m, c)`; each of its calls `call id m' c'` is followed by exactly
     one complete execution of the remaining stages that receives exactly `(m', c')`, and the `back`
-    event reports exactly the result `r'` of that execution; the stage exits with `r`. -/
-inductive WN (cr : Out → R) : List Nat → Nat → Nat → R → List Event → Prop where
-  | core (n m c h : Nat) (o : Out) : WN cr [] m c (cr o) [.core n m c h o]
-  | stage (id : Nat) (rest : List Nat) (m c : Nat) (r : R)
+    event reports exactly the result `r'` of that execution; the stage exits with `r`.
+    `cs m c r tr`: what ONE invocation of the innermost continuation with `(m, c)` may look like. -/
+inductive WN (cs : Msg → Nat → R → List Event → Prop) :
+    List Nat → Msg → Nat → R → List Event → Prop where
+  | core (m : Msg) (c : Nat) (r : R) (tr : List Event) : cs m c r tr → WN cs [] m c r tr
+  | stage (id : Nat) (rest : List Nat) (m : Msg) (c : Nat) (r : R)
       -- the successive calls of `next` by stage `id`: (message, context, result, inner trace)
-      (parts : List (Nat × Nat × R × List Event)) :
-      (∀ p ∈ parts, WN cr rest p.1 p.2.1 p.2.2.1 p.2.2.2) →
-      WN cr (id :: rest) m c r (.enter id m c :: segsOf id parts ++ [.exit id r])
+      (parts : List (Msg × Nat × R × List Event)) :
+      (∀ p ∈ parts, WN cs rest p.1 p.2.1 p.2.2.1 p.2.2.2) →
+      WN cs (id :: rest) m c r (.enter id m c :: segsOf id parts ++ [.exit id r])
+
+/-- one invocation of the innermost continuation of kind `k` with `(m, c)`: when the operation OF `m`
+    is routed, exactly one handler invocation — of the handler registered for THAT operation, on
+    exactly `m` and `c` — whose outcome is returned echoing that operation; otherwise no handler
+    runs and the answer is "operation not supported". -/
+def CoreSem (k : Kind) (m : Msg) (c : Nat) (r : R) (tr : List Event) : Prop :=
+  (routed k m.op = true ∧
+    ∃ n h o, tr = [.core n (handlerOf k m.op) m c h o] ∧ r = coreResult k o m.op) ∨
+  (routed k m.op = false ∧ tr = [] ∧ r = notRouted k m.op)
 
 def Event.isCore : Event → Bool
   | .core .. => true
   | _ => false
 
-/-- number of invocations of the innermost handler recorded in a trace. -/
+/-- number of handler invocations recorded in a trace. -/
 def coreEvents (tr : List Event) : Nat := tr.countP Event.isCore
 
-/-- straight-line statements: no conditional. -/
+/-- straight-line statements that keep the operation: no conditional, no `setOp`. -/
 def Act.straight : Act → Bool
-  | .callIfFail | .retIfFail _ | .retIfOk _ => false
+  | .callIfFail | .retIfFail _ | .retIfOk _ | .setOp _ => false
   | _ => true
 
 def Stage.Straight (st : Stage) : Prop := ∀ a ∈ st.body, a.straight = true
@@ -321,30 +379,38 @@ def prodL : List Nat → Nat
   | x :: xs => x * prodL xs
 
 /-- what the stages received, in the order they were entered: `(id, message, context)`. -/
-def enters : List Event → List (Nat × Nat × Nat)
+def enters : List Event → List (Nat × Msg × Nat)
   | [] => []
   | .enter id m c :: es => (id, m, c) :: enters es
   | _ :: es => enters es
 
-/-- what the innermost handler received at each of its invocations: `(message, context)`. -/
-def coreInputs : List Event → List (Nat × Nat)
+/-- the handler invocations: `(handler, message, context)`. -/
+def coreInputs : List Event → List (Nat × Msg × Nat)
   | [] => []
-  | .core _ m c _ _ :: es => (m, c) :: coreInputs es
+  | .core _ hd m c _ _ :: es => (hd, m, c) :: coreInputs es
   | _ :: es => coreInputs es
 
-/-- the most common middleware shape: derive a message and a context from those received, call
-    `next` once with them, return its result. -/
-def pipeStage (p : Nat × Tr × Tr) : Stage := ⟨p.1, [.setMsg p.2.1, .setCtx p.2.2, .call]⟩
+/-- the most common middleware shape: derive a message (token AND operation) and a context from
+    those received, call `next` once with them, return its result. `p = (id, t, o, u)`. -/
+def pipeStage (p : Nat × Tr × Nat × Tr) : Stage :=
+  ⟨p.1, [.setMsg p.2.1, .setOp p.2.2.1, .setCtx p.2.2.2, .call]⟩
+
+def pipeMsg (p : Nat × Tr × Nat × Tr) (m : Msg) : Msg := ⟨p.2.1.app m.tok, p.2.2.1⟩
 
 /-- what each stage of a pipeline must receive: the transformations of all its predecessors applied
     in registration order to the initial message / context. -/
-def pipeEnters : List (Nat × Tr × Tr) → Nat → Nat → List (Nat × Nat × Nat)
+def pipeEnters : List (Nat × Tr × Nat × Tr) → Msg → Nat → List (Nat × Msg × Nat)
   | [], _, _ => []
-  | p :: ps, m, c => (p.1, m, c) :: pipeEnters ps (p.2.1.app m) (p.2.2.app c)
+  | p :: ps, m, c => (p.1, m, c) :: pipeEnters ps (pipeMsg p m) (p.2.2.2.app c)
 
-/-- … and what the innermost handler must receive at the end of the pipeline. -/
-def pipeOut : List (Nat × Tr × Tr) → Nat → Nat → Nat × Nat
+/-- … and what the innermost continuation must receive at the end of the pipeline. -/
+def pipeOut : List (Nat × Tr × Nat × Tr) → Msg → Nat → Msg × Nat
   | [], m, c => (m, c)
-  | p :: ps, m, c => pipeOut ps (p.2.1.app m) (p.2.2.app c)
+  | p :: ps, m, c => pipeOut ps (pipeMsg p m) (p.2.2.2.app c)
+
+/-- the handler invocations at the end of a pipeline: one, by the handler of the operation the
+    LAST stage passed, when that operation is routed; none otherwise. -/
+def pipeCore (k : Kind) (x : Msg × Nat) : List (Nat × Msg × Nat) :=
+  if routed k x.1.op then [(handlerOf k x.1.op, x.1, x.2)] else []
 
 end Kmip.Mw
